@@ -22,6 +22,8 @@ Impl == {}
 FG == INSTANCE FrameGrammar
 
 Ch(s, i) == SubSeq(s, i, i)
+\* total sub-string (a log line written by a changed formatter may be shorter than any column this module looks at)
+Sub(s, a, b) == LET e == IF b > Len(s) THEN Len(s) ELSE b IN IF a > e THEN "" ELSE SubSeq(s, a, e)
 FrameOK(t) == Len(t) >= 48 /\ FG!Valid(FG!ParseCols(t)) /\ FG!PrintFrame(FG!ParseCols(t)) = t
 
 Accepted(p) == p.err = "" /\ FrameOK(p.frame)
@@ -55,10 +57,10 @@ Partition(rest) ==   \* Packet._partition
 Skipped(line) == Trim(line) = "" \/ Ch(Trim(line), 1) = "#"
 ReadLine(line) ==    \* -> <<delivered?, record>>
   LET t   == Trim(line)
-      dtm == SubSeq(t, 1, 26)
-      pt  == Partition(SubSeq(t, 28, Len(t)))
-      ok  == ~Skipped(line) /\ pt.err = "" /\ Len(pt.pkt) >= 52 /\ FrameOK(SubSeq(pt.pkt, 5, Len(pt.pkt)))
-  IN  <<ok, [dtm |-> dtm, rssi |-> SubSeq(pt.pkt, 1, 3), frame |-> SubSeq(pt.pkt, 5, Len(pt.pkt)), comment |-> pt.comment]>>
+      dtm == Sub(t, 1, 26)
+      pt  == Partition(Sub(t, 28, Len(t)))
+      ok  == ~Skipped(line) /\ pt.err = "" /\ Len(pt.pkt) >= 52 /\ FrameOK(Sub(pt.pkt, 5, Len(pt.pkt)))
+  IN  <<ok, [dtm |-> dtm, rssi |-> Sub(pt.pkt, 1, 3), frame |-> Sub(pt.pkt, 5, Len(pt.pkt)), comment |-> pt.comment]>>
 
 \* (SelectSeq + function constructors, not recursion: whole real logs are thousands of lines long)
 Replay(lines) ==
